@@ -152,6 +152,7 @@ fn body(max_atoms: usize) -> impl Fn(&Ch) -> Run + Sync + Send {
     // a sibling root in another encoding, loaded by the same build before or
     // after the module under test: nothing may carry over from one to the other
     let sibling_first = ch.flag("sibling_root_first");
+    let retry = ch.flag("first_load_of_the_remote_module_fails_the_integrity_check");
     let mut sib_bytes: Vec<u8> = vec![0xFF, 0xFE];
     for u in "{\"s\":\"é\"}".encode_utf16() {
       sib_bytes.extend_from_slice(&u.to_le_bytes());
@@ -186,6 +187,19 @@ fn body(max_atoms: usize) -> impl Fn(&Ch) -> Run + Sync + Send {
             loader.add(sib_spec, Entry::with_headers(&sib_bytes, &[("content-type", "application/json; charset=utf-16le")]));
           }
           let roots = if sibling_first { vec![url(sib_spec), url(&spec)] } else { vec![url(&spec), url(sib_spec)] };
+          // the first attempt to load the remote module may fail the integrity
+          // check (stale cache): the builder retries once bypassing the cache,
+          // and what the retry delivers is decoded like any other response
+          if retry && !is_file {
+            let target = url(&spec);
+            *loader.injector.borrow_mut() = Some(Box::new(move |call: &LoadCall, _idx: usize| {
+              if call.kind == "load" && call.specifier == target && call.cache_setting == deno_graph::source::CacheSetting::Use {
+                Answer::Load(Err(deno_graph::source::LoadError::ChecksumIntegrity(deno_graph::source::ChecksumIntegrityError { actual: "aa".into(), expected: "bb".into() })))
+              } else {
+                Answer::Honest
+              }
+            }));
+          }
           let mut graph = ModuleGraph::new(GraphKind::All);
           if let Err(e) = build_graph(&mut graph, roots, &loader, BuildCfg::default(), ch) {
             run.violate("build-did-not-finish", format!("{e:?}"), json!({"bytes": names}));
@@ -193,7 +207,7 @@ fn body(max_atoms: usize) -> impl Fn(&Ch) -> Run + Sync + Send {
           }
           evals += 1;
           let want = reference(&expect_src, *header, is_file);
-          let case = json!({"atoms": names, "bytes_hex": hex(&content), "charset_header": header, "specifier": spec, "sibling_root_first": sibling_first});
+          let case = json!({"atoms": names, "bytes_hex": hex(&content), "charset_header": header, "specifier": spec, "sibling_root_first": sibling_first, "first_load_of_the_remote_module_fails_the_integrity_check": retry && !is_file});
           match (graph.try_get(&url(sib_spec)), reference(&sib_bytes, if is_file { None } else { Some("utf-16le") }, is_file)) {
             (Ok(Some(Module::Json(j))), Want::Text(t)) if j.source.text.as_ref() == t.as_str() && t == "{\"s\":\"é\"}" => {}
             (got, _) => run.violate(
@@ -286,7 +300,7 @@ fn body(max_atoms: usize) -> impl Fn(&Ch) -> Run + Sync + Send {
       }
     }
     run.evals = evals;
-    run.state_key = hash_of(&bytes);
+    run.state_key = hash_of(&(&bytes, sibling_first, retry));
     run.nontrivial = bytes.iter().any(|b| *b >= 0x80) || bytes.contains(&0);
     run.outcome_key = hash_of(&outcome);
     if ch.describe() {
